@@ -54,6 +54,7 @@ def install(it):
         n = term(b)
         if it_.path.branch(n >= thr):
             it_.raise_builtin("OverflowError", node)
+        it_.path.ghost.setdefault("pow_terms", []).append(n)
         p = f(n)
         # facts about g**n for 1 <= n < threshold (g > 1): at least g, finite double
         it_.path.assume(z3.Implies(n >= 1, z3.And(p >= ops.rv(a), p <= DBL_MAX_R)))
@@ -63,6 +64,91 @@ def install(it):
     it.ext_models["pow"] = powm
     stdlib.trusted("float ** int", "g ** n for g in {2.0, 1.5}: an uninterpreted positive real pow_g(n) >= g for n >= 1; raises OverflowError "
                                    "iff n >= 1024 (g=2.0) / 1751 (g=1.5) - thresholds witnessed natively at start-up")
+
+
+K_EXP = f"{M}:_exp_cap"
+
+
+def exp_cap_spec(g):
+    """while remaining > 0 and 0.0 < cap < max_s: step = min(remaining, 256); cap *= factor**step; remaining -= step
+
+    INV: 0 <= remaining <= attempt and
+         (cap finite, >= 0, cap * g^remaining == base_s * g^attempt)  or  (cap == +inf and base_s * g^attempt > DBL_MAX)
+    The multiplicativity instance g^step * g^(remaining-step) == g^remaining is supplied to the solver as an
+    axiom instance of the pow model (trusted arithmetic fact), as are g^0 == 1 and g^n >= 1."""
+    POWF = POW[g][0]
+
+    def params(env):
+        a = env.func.node.args
+        names = [p.arg for p in a.args]
+        return [env.lookup(n) for n in names]  # base_s, factor, attempt, max_s
+
+    def setup(it, env):
+        base, factor, attempt, max_s = params(env)
+        return {"base": to_sfloat(base), "attempt": term(attempt), "max_s": to_sfloat(max_s), "seen": []}
+
+    def locals_of(it, env):
+        # the two loop-carried locals are the only names assigned before the loop
+        assigned = [n for n in env.vars if n not in [p.arg for p in env.func.node.args.args]]
+        cap = rem = None
+        for n in assigned:
+            v = env.vars[n]
+            if isinstance(v, SFloat) or isinstance(v, float) or (isinstance(v, Sym) and v.ty == "real"):
+                cap = v if cap is None else cap
+            elif isinstance(v, int) or (isinstance(v, Sym) and v.ty == "int"):
+                rem = v if rem is None else rem
+        return cap, rem
+
+    def inv(it, env, idx, ctx):
+        cap, rem = ctx.get("names") and (env.vars[ctx["names"][0]], env.vars[ctx["names"][1]]) or locals_of(it, env)
+        if "names" not in ctx:
+            pars = [p.arg for p in env.func.node.args.args]
+            ctx["names"] = [n for n in env.vars if env.vars[n] is cap and n not in pars][:1] + [
+                n for n in env.vars if env.vars[n] is rem and n not in pars][:1]
+        c = to_sfloat(cap)
+        n = term(rem)
+        base, att = ctx["base"], ctx["attempt"]
+        true_val = base.v * POWF(att)
+        # axiom instances of the pow model for the exponents in play
+        for prev in ctx["seen"]:
+            it.path.assume(z3.Implies(z3.And(n >= 0, prev - n >= 0), POWF(prev - n) * POWF(n) == POWF(prev)))
+            it.path.assume(z3.Implies(prev - n >= 0, POWF(prev - n) >= 1))
+        it.path.assume(z3.And(POWF(0) == 1, z3.Implies(n >= 0, POWF(n) >= 1), z3.Implies(att >= 0, POWF(att) >= 1)))
+        ctx["seen"].append(n)
+        return [
+            ("remaining-range", z3.And(n >= 0, n <= att)),
+            ("cap-tracks-the-exact-product",
+             z3.Or(z3.And(c.k == FIN, c.v >= 0, c.v * POWF(n) == true_val),
+                   z3.And(c.k == PINF, true_val > DBL_MAX_R))),
+        ]
+
+    def decreases(it, env, ctx):
+        return term(env.vars[ctx["names"][1]])
+
+    return LoopSpec(inv, setup=setup, decreases=decreases, prop=P, modifies=lambda it, env, ctx: [])
+
+
+def t_exp_cap(it, g):
+    install(it)
+    it.loop_specs[(K_EXP, 1)] = exp_cap_spec(g)
+
+    def h(it):
+        p = it.path
+        base, max_s = fin_param("base_s"), fin_param("max_s")
+        valid_params(it, base, max_s)
+        attempt = fint("attempt")
+        p.assume(attempt.t >= 1)
+        r = call_catch(it, FuncV(it.tree.func(K_EXP)), [base, g, attempt, max_s])
+        if r[0] == "exc":
+            p.oblige(f"{K_EXP}/raises/none", False, prop=P, detail=repr(r[1]))
+            return
+        res = to_sfloat(r[1])
+        prod = base.v * POW[g][0](attempt.t)
+        cap = z3.If(prod < max_s.v, prod, max_s.v)
+        p.oblige(f"{K_EXP}/ensures/result==min(max_s,base_s*g^attempt)", z3.And(res.k == FIN, res.v == cap), prop=P)
+        p.cover(f"{K_EXP}/normal")
+
+    return h
 
 
 def witness_pow():
@@ -94,6 +180,9 @@ def closure(it, outer, args=(), kwargs=None):
 def t_jitter(it, which):
     install(it)
     key = f"{M}:{which}.<locals>.f"
+    gg = {"equal_jitter": 2.0, "token_backoff": 1.5}.get(which)
+    if gg is not None:
+        it.loop_specs[(K_EXP, 1)] = exp_cap_spec(gg)
 
     def h(it):
         p = it.path
@@ -435,6 +524,8 @@ TASKS = [
     Task("strategies.decorrelated_jitter", lambda it: t_jitter(it, "decorrelated_jitter"), [P], [f"{M}:decorrelated_jitter.<locals>.f"]),
     Task("strategies.equal_jitter", lambda it: t_jitter(it, "equal_jitter"), [P], [f"{M}:equal_jitter.<locals>.f"]),
     Task("strategies.token_backoff", lambda it: t_jitter(it, "token_backoff"), [P], [f"{M}:token_backoff.<locals>.f"]),
+    Task("strategies._exp_cap[2.0]", lambda it: t_exp_cap(it, 2.0), [P], [K_EXP]),
+    Task("strategies._exp_cap[1.5]", lambda it: t_exp_cap(it, 1.5), [P], [K_EXP]),
     Task("strategies.AdaptiveStrategy._multiplier", lambda it: t_adaptive(it, "_multiplier"), [P],
          [f"{M}:AdaptiveStrategy._multiplier", f"{M}:AdaptiveStrategy._prune"]),
     Task("strategies.AdaptiveStrategy._record", lambda it: t_adaptive(it, "_record"), [P],
